@@ -15,7 +15,7 @@ TOK = re.compile(r'Establishing optimal transition set for event (\d+)|Exiting s
 
 def make_case(seed):
     rng = random.Random(seed)
-    ch, hist = C.gen_chart(seed, data=True)
+    ch, hist = C.gen_chart(seed, data=True, errors=False)
     # the external history is sent by the document itself, once, from the first state entered by default
     first = ch.root.states()[0] if not ch.root.initial_attr else ch.by_id[ch.root.initial_attr[0]]
     ch.data['g'] = 0
